@@ -91,7 +91,13 @@ func StateTime(b []byte) int64 {
 
 // CreateHeapReal creates a database on a heap store (no file).
 func CreateHeapReal(persistEvery time.Duration) *Real {
-	db := db19.CreateDb(stor.HeapStor(64 * 1024))
+	return CreateHeapRealChunk(persistEvery, 64*1024)
+}
+
+// CreateHeapRealChunk: heap store with the given chunk size (small chunks make a short history span many chunks,
+// as a large production database spans its 64 MB chunks).
+func CreateHeapRealChunk(persistEvery time.Duration, chunk int) *Real {
+	db := db19.CreateDb(stor.HeapStor(chunk))
 	db19.StartConcur(db, persistEvery)
 	return &Real{DB: db}
 }
